@@ -227,7 +227,18 @@ def search(qualname, seed, budget_s, max_iter=200000, start=0):
         reset_globals()
         try:
             args = c.gen(rnd, it) if _wants_iteration(c.gen) else c.gen(rnd)
-        except Exception:
+        except Exception as e:
+            # the generators build their scenarios through the real code (sessions fed message by message, parsers, controllers): an exception that
+            # comes out of the repo's code while a well-formed scenario is built is a finding of its own (on the unchanged tree there are none)
+            import os as _os
+            tb = traceback.extract_tb(e.__traceback__)
+            in_repo = [f for f in tb if _os.path.realpath(f.filename).startswith(_os.path.realpath(repo.REPO) + _os.sep)]
+            if in_repo:
+                last = in_repo[-1]
+                return {'function': qualname, 'seed': seed, 'iteration': it, 'args': '(scenario under construction)', 'clause': 'scenario_construction',
+                        'observed': 'the real code raised %s: %s at %s:%d (%s) while the generator was building a well-formed scenario' % (
+                            type(e).__name__, e, _os.path.relpath(last.filename, repo.REPO), last.lineno, last.name), 'tried': stats['tried']}
+            stats['generator_errors'] = stats.get('generator_errors', 0) + 1
             continue
         if not isinstance(args, tuple):
             args = (args,)
@@ -253,7 +264,12 @@ def replay(rec):
     c, fn = target_of(qualname)
     rnd = random.Random('%s/%d/%d' % (qualname, seed, it))
     reset_globals()
-    args = c.gen(rnd, it) if _wants_iteration(c.gen) else c.gen(rnd)
+    try:
+        args = c.gen(rnd, it) if _wants_iteration(c.gen) else c.gen(rnd)
+    except Exception as e:
+        if rec.get('clause') == 'scenario_construction':
+            return True, 'still raises %s: %s while the scenario is built' % (type(e).__name__, e)
+        raise
     if not isinstance(args, tuple):
         args = (args,)
     try:
